@@ -109,24 +109,24 @@ impl Sh {
         let v = y.v.atan2(x.v);
         // d atan2 = (x dy - y dx) / r^2
         let e = if r2 > 0.0 { (x.v.abs() * y.e + y.v.abs() * x.e) / r2 } else { 0.0 };
-        Sh { v, e: e + v.abs() + 1.0 }
+        Sh { v, e: e + v.abs() }
     }
     pub fn acos(self) -> Sh {
         let v = self.v.clamp(-1.0, 1.0).acos();
         let s = (1.0 - self.v * self.v).max(0.0).sqrt();
         let e = if s > 0.0 { self.e / s } else { f64::INFINITY };
-        Sh { v, e: e + v.abs() + 1.0 }
+        Sh { v, e: e + v.abs() }
     }
     pub fn asin(self) -> Sh {
         let v = self.v.clamp(-1.0, 1.0).asin();
         let s = (1.0 - self.v * self.v).max(0.0).sqrt();
         let e = if s > 0.0 { self.e / s } else { f64::INFINITY };
-        Sh { v, e: e + v.abs() + 1.0 }
+        Sh { v, e: e + v.abs() }
     }
     pub fn tan(self) -> Sh {
         let v = self.v.tan();
         let c = self.v.cos();
-        Sh { v, e: self.e / (c * c) + 2.0 * v.abs() + 1.0 }
+        Sh { v, e: self.e / (c * c) + 2.0 * v.abs() }
     }
 }
 
@@ -196,10 +196,10 @@ impl Field for Sh {
     }
     fn cos_sin(self) -> (Sh, Sh) {
         let (s, c) = self.v.sin_cos();
-        // argument error propagates with |derivative| <= 1; libm is within 1 ulp;
-        // argument reduction of large angles loses |x| u
-        let e = self.e + 1.0;
-        (Sh { v: c, e: e + c.abs() }, Sh { v: s, e: e + s.abs() })
+        // first order: d cos = -sin dx, d sin = cos dx; libm's own result is within an ulp of the value (its argument
+        // reduction is exact). No absolute floor: sin of a tiny angle is known to a *relative* rounding, which is
+        // what exposes a small-angle short cut
+        (Sh { v: c, e: self.e * s.abs() + c.abs() }, Sh { v: s, e: self.e * c.abs() + s.abs() })
     }
     fn approx(self) -> f64 {
         self.v
